@@ -102,6 +102,7 @@ fn main() {
         "C14" => facets::c14::run(&opts),
         "C15" => facets::c15::run(&opts),
         "C16" => facets::c16::run(&opts),
+        "C20" => facets::c20::run(&opts),
         other => {
             eprintln!("unknown facet {}", other);
             std::process::exit(2)
